@@ -126,7 +126,12 @@ impl RemovalBuffer {
         entity: Entity,
         removed_components: &HashSet<ComponentId>,
     ) {
-        let mut removed_ids = self.ids_buffer.pop().unwrap_or_default();
+        // Removals are buffered until the next tick, so the entity may already have
+        // removals from previous frames. Extend them instead of overwriting.
+        let mut removed_ids = self
+            .removals
+            .remove(&entity)
+            .unwrap_or_else(|| self.ids_buffer.pop().unwrap_or_default());
         for rule in rules
             .iter()
             .filter(|rule| rule.matches_removals(archetype, removed_components))
